@@ -15,7 +15,6 @@ import (
 	"go.6river.tech/mmmbbb/ent"
 	"go.6river.tech/mmmbbb/ent/delivery"
 	"go.6river.tech/mmmbbb/ent/message"
-	"go.6river.tech/mmmbbb/ent/snapshot"
 	"go.6river.tech/mmmbbb/ent/subscription"
 	"go.6river.tech/mmmbbb/grpc/pubsubpb"
 	"go.6river.tech/mmmbbb/services"
@@ -643,11 +642,9 @@ func (w *World) execInner(op Op, res *Result) string {
 		}
 		return hdr("seek_snap") + fmt.Sprintf(" sub=%s snap=%s", Enc(SubName(op.Sub)), Enc(SnapName(op.Snap)))
 	case "delete_snap":
-		n, err := w.Client.Snapshot.Delete().Where(snapshot.Name(SnapName(op.Snap))).Exec(w.Ctx)
-		if err == nil && n == 0 {
-			err = actions.ErrNotFound
-		}
-		res.Err, res.Resp = err, errClass(err)
+		// there is no action for this: the gRPC handler deletes the row itself, so the handler is what runs
+		_, err := w.Api().Sub.DeleteSnapshot(w.Ctx, &pubsubpb.DeleteSnapshotRequest{Snapshot: SnapName(op.Snap)})
+		res.Err, res.Resp = err, grpcErrClass(err)
 		return hdr("delete_snap") + " name=" + Enc(SnapName(op.Snap))
 	case "set_delay":
 		// through the real controller (controllers/delay-injector.go): PUT /delays/<subscription>, and for a
